@@ -108,3 +108,9 @@ chk("C11", "exploration", "E4",
     "Over three node layouts (sensors first; sensors with larger ids than neurons; two outputs) every assignment {absent, enabled, disabled} to every candidate link (all sources x all non-sensor targets incl. self-loops) is built as a genome and expressed; plus recurrent/parallel-link variants and modular genomes (enabled, disabled, two modules). For each network: nodes (id, role, activation, order), inputs/outputs in genome order (also behaviourally via LoadSensors), link multisets per node with pointer wiring, control-node wiring, NodeCount/LinkCount/Complexity, and Node/Nodes/From/To/Edge/WeightedEdge/Weight/HasEdgeFromTo/HasEdgeBetween for all ordered pairs of ids including absent ones (must be nil/false/empty); organism phenotype caching and rebuild.",
     "Node sets of 4-5 nodes; weights from the hard-float alphabet; From/To compared as sets.",
     "DESIGN.md section 3 C11")
+
+chk("C13", "model_checking", "E4",
+    "exhaustive enumeration of operation histories (all sequences over a solver alphabet up to a length) on all small digraphs, differential oracle flushed-vs-fresh on the real solvers",
+    "For every digraph over {bias, input, output, hidden} (thorough: also all 2^15 digraphs with two hidden nodes) in two variants, for the standard network and the fast solver built from the same genome, every history h of length <= 2 (3 thorough) over {Load x2, Forward(1), Forward(2), Recursive, Relax / Depth queries} followed by Flush and every continuation s of length <= 3 is executed; outputs, results and errors after every step of s must equal, bit for bit, those of s on a freshly built instance.",
+    "Node sets of 4-5 nodes; two input values; observations through the public solver interface only.",
+    "DESIGN.md section 3 C13")
